@@ -561,6 +561,11 @@ func parseSQL(src string) []*stmt {
 		whole.verb = "noop"
 		return []*stmt{whole}
 	}
+	if strings.Contains(low2(src), "from shovel.task_updates group by 1, 2") && strings.Contains(low2(src), "left join shovel.task_updates") {
+		// shovel.TaskUpdates: the newest position of every (source, integration) with its statistics
+		whole.kind, whole.verb, whole.table = "query", "taskupdates", "shovel.task_updates"
+		return []*stmt{whole}
+	}
 	toks, ok := lex(src)
 	if !ok {
 		whole.err = errf("42601", "fakepg: unsupported statement: %s", whole.sql)
@@ -576,6 +581,55 @@ func parseSQL(src string) []*stmt {
 		}
 	}
 	return out
+}
+
+func low2(s string) string { return strings.Join(strings.Fields(strings.ToLower(s)), " ") }
+
+var taskUpdatesCols = []Column{{"src_name", "text"}, {"ig_name", "text"}, {"num", "numeric"}, {"stop", "numeric"}, {"hash", "bytea"},
+	{"src_num", "numeric"}, {"src_hash", "bytea"}, {"nblocks", "numeric"}, {"nrows", "numeric"}, {"latency", "interval"}}
+
+// taskUpdates evaluates shovel.TaskUpdates' query: per (src_name, ig_name) the row with the largest num
+func (r *run) taskUpdates() (*result, *pgErr) {
+	t, perr := r.db.lookup("shovel.task_updates")
+	if perr != nil {
+		return nil, perr
+	}
+	ix := map[string]int{}
+	for i, c := range t.cols {
+		ix[c.Name] = i
+	}
+	best := map[string][]Value{}
+	var keys []string
+	for _, rw := range t.rows {
+		k := fmt.Sprintf("%v\x00%v", rw.v[ix["src_name"]], rw.v[ix["ig_name"]])
+		cur, ok := best[k]
+		if !ok {
+			keys = append(keys, k)
+		}
+		if c, cmpOK := compare(rw.v[ix["num"]], func() Value {
+			if ok {
+				return cur[ix["num"]]
+			}
+			return nil
+		}()); !ok || (cmpOK && c > 0) {
+			best[k] = rw.v
+		}
+	}
+	slices.Sort(keys)
+	res := &result{cols: taskUpdatesCols}
+	for _, k := range keys {
+		v := best[k]
+		get := func(name string, def Value) Value {
+			if x := v[ix[name]]; x != nil {
+				return x
+			}
+			return def
+		}
+		res.rows = append(res.rows, []Value{get("src_name", nil), get("ig_name", nil), get("num", nil), get("stop", Num("0")), get("hash", nil),
+			get("src_num", Num("0")), get("src_hash", []byte{0}), get("nblocks", Num("0")), get("nrows", Num("0")), get("latency", Interval(0))})
+	}
+	res.n, res.tag = len(res.rows), fmt.Sprintf("SELECT %d", len(res.rows))
+	return res, nil
 }
 
 // ---------------------------------------------------------------- catalog
@@ -955,6 +1009,8 @@ func (r *run) stmt(st *stmt, data [][]Value) (*result, *pgErr) {
 		return &result{tag: "SET"}, nil
 	case "noop":
 		return &result{tag: "DO"}, nil
+	case "taskupdates":
+		return r.taskUpdates()
 	case "select":
 		t, perr := r.query(st)
 		if perr != nil {
@@ -1194,6 +1250,8 @@ func (r *run) plan(st *stmt) (oids []uint32, fields []Column, perr *pgErr) {
 		_, perr = r.compile(t, st.where)
 	case "prune":
 		set(st.pr.n, "bigint", false)
+	case "taskupdates":
+		fields = taskUpdatesCols
 	case "select":
 		if st.cte != nil {
 			c, perr := sel(st.cte)
